@@ -6,6 +6,7 @@ import sx
 PID = "C17"
 RUNNER = "impl_m4.py"
 N = {"quick": 2500, "thorough": 80000}
+VM_CROSSCHECK = True
 LEVEL_RULE = ("pairs (event, event with exactly one change) over all change kinds of the property (container kind, number or order "
               "of children, a leaf's duration by >= 1 tick, a tag, an additional parameter on a leaf (changed / added / removed), "
               "the tempo of any node: bpm, or only later points of a trajectory = finding F1), identical pairs, copies, and non-events "
